@@ -369,11 +369,62 @@ def _shard(sh, ctx):
                     ctx.violation('%s|RULE|%s|%s' % (PROP, cls, 'option:' + opt if cls in ('default', 'flag-ignored') else 'any-option'),
                                   '%s: %s resolves to %r, the documented rule gives %r' % (entry, opt, got, want), dict(case, observed=got))
             ctx.sample({'entry': entry, 'option': opt, 'sections_in_order': secs}, rank=(entry, opt))
+        # ---- one section split over two directories: options set only in the lower-priority copy must still apply ----
+        split_section_cases(ctx, entry, opts, dirs)
         # ---- Ignore mappings ----
         ignore_cases(ctx, entry, dirs)
     finally:
         os.chdir('/')
         shutil.rmtree(root, ignore_errors=True)
+
+
+def split_section_cases(ctx, entry, opts, dirs):
+    allopts = [o for o in ENTRY_OPTS[entry] if o != 'workdirectory']
+    for o1 in opts:
+        if o1 == 'log_level' or o1 == 'workdirectory':
+            continue
+        for sec in sections_for(entry, o1):
+            for o2 in allopts:
+                if o2 == o1 or sec not in sections_for(entry, o2):
+                    continue
+                for hi, lo in ((0, 1), (1, 2), (0, 2)):
+                    content = [dict() for _ in dirs]
+                    v1, v2 = DOMAIN[o1][0], DOMAIN[o2][0]
+                    content[hi][sec] = {o1: v1}
+                    content[lo][sec] = {o2: v2}
+                    for d, c in zip(dirs, content):
+                        pth = os.path.join(d, 'nbdime_config.json')
+                        if c:
+                            with open(pth, 'w') as f:
+                                json.dump(c, f)
+                        elif os.path.exists(pth):
+                            os.unlink(pth)
+                    ctx.count('evaluations')
+                    ctx.count('nontrivial')
+                    ctx.count('split_section_cases')
+                    case = {'entry': entry, 'option': o2, 'split_section': sec, 'higher_dir_sets': {o1: v1}, 'lower_dir_sets': {o2: v2}, 'dirs': [hi, lo]}
+                    try:
+                        ns = observe_namespace(entry, [])
+                    except (SystemExit, Exception) as e:
+                        ctx.violation('%s|SPLIT-EXC|%s|%s' % (PROP, entry, type(e).__name__), 'namespace construction failed: %s' % e, case)
+                        continue
+                    if entry == 'extension':
+                        ns = dict(ns)
+                        for o in (o1, o2):
+                            ns.setdefault(o, DEFAULTS[o])
+                    for o, v in ((o1, v1), (o2, v2)):
+                        got = ns.get(o, '<missing>')
+                        if got == '<not passed on>':
+                            continue
+                        want = rule(entry, o, content, None)
+                        if canon(got) != canon(want):
+                            cls = 'server' if entry == 'server' else ('lower-directory-option-lost' if o == o2 else 'higher-directory-option-lost')
+                            ctx.violation('%s|SPLIT-SECTION|%s' % (PROP, cls), '%s: %s resolves to %r, rule gives %r when section %s is split over two files' % (entry, o, got, want, sec),
+                                          dict(case, observed=got))
+    for d in dirs:
+        pth = os.path.join(d, 'nbdime_config.json')
+        if os.path.exists(pth):
+            os.unlink(pth)
 
 
 def ignore_cases(ctx, entry, dirs):
@@ -419,6 +470,30 @@ def ignore_cases(ctx, entry, dirs):
                 if canon(got) != canon(want):
                     ctx.violation('%s|IGNORE-MERGE|%s' % (PROP, 'own' if len(chosen) == 1 and secs[chosen[0]] == OWN[entry] else 'sections'),
                                   '%s: Ignore resolves to %r, path-by-path merge gives %r' % (entry, got, want), dict(case, observed=got))
+    # one section's Ignore mapping split over two directories: merged path by path, higher directory wins per path
+    for sec in secs:
+        content = [dict() for _ in dirs]
+        content[0][sec] = {'Ignore': {'/cells/*/outputs': True, '/metadata': ['a']}}
+        content[1][sec] = {'Ignore': {'/metadata': ['b'], '/cells/*/metadata': ['tags']}}
+        want = {'/cells/*/outputs': True, '/metadata': ['a'], '/cells/*/metadata': ['tags']}
+        for d, c in zip(dirs, content):
+            pth = os.path.join(d, 'nbdime_config.json')
+            if c:
+                with open(pth, 'w') as f:
+                    json.dump(c, f)
+            elif os.path.exists(pth):
+                os.unlink(pth)
+        ctx.count('evaluations')
+        ctx.count('nontrivial')
+        ctx.count('ignore_mapping_cases')
+        case = {'entry': entry, 'option': 'Ignore', 'sections': {sec: 'split over two directories'}, 'expected': want}
+        try:
+            got = build_config(entry).get('Ignore', {})
+        except Exception as e:
+            ctx.violation(exc_fingerprint(PROP, e, 'EXC|Ignore|' + entry), 'build_config raised %s: %s' % (type(e).__name__, e), case)
+            continue
+        if canon(got) != canon(want):
+            ctx.violation('%s|IGNORE-MERGE|split-section' % PROP, '%s: Ignore resolves to %r, path-by-path merge gives %r' % (entry, got, want), dict(case, observed=got))
     for d in dirs:
         pth = os.path.join(d, 'nbdime_config.json')
         if os.path.exists(pth):
